@@ -704,6 +704,7 @@ package jrpc2
 //@   requires wfServer(s) && !held(s.mu) && pctx != nil && p != nil
 //@   stable in(s.call, id) ==> lookup(s.call, id) == p
 //@   at call.Error#1 assume[context.Context: Err is non-nil once Done is closed] err != nil
+//@   at send#1 assert[C05:contexts-own-error] arg0 != nil && (arg0.E == nil || arg0.E.Code == InternalError || (called("call.Err#1") && arg0.E.Code == errorCodeSpec(callres("call.Err#1", 0, "error"))))
 //@   modifies monitor(Server, s), held(s.mu)
 //@   at defer.Unlock#1 assert[C09:removed-before-write] called("call.Err#1") ==> !in(s.call, id)
 //@   at defer.Unlock#1 assert[C09:noop-if-gone] !called("call.Err#1") ==> forall(k string, in(s.call, k) == atlock(in(s.call, k)))
@@ -894,6 +895,7 @@ package jrpc2
 //@   stable in(c.pending, id) ==> lookup(c.pending, id) == p
 //@   modifies monitor(Client, c), held(fieldaddr(c, mu)), hookCalls, p.err, p.result, fired
 //@   at call.Error#1 assume[context.Context: Err is non-nil once Done is closed] err != nil
+//@   at send#1 assert[C05:contexts-own-error] arg0 != nil && (arg0.E == nil || arg0.E.Code == InternalError || (called("call.Err#1") && arg0.E.Code == errorCodeSpec(callres("call.Err#1", 0, "error"))))
 //@   ensures[C05:unlocked] !held(fieldaddr(c, mu))
 //@   ensures[C05:hook-iff-unanswered] hookCalls == old(hookCalls) + ((atlock(in(c.pending, id)) && c.chook != nil) ? 1 : 0)
 
